@@ -516,6 +516,64 @@ fn decode(cfg: &Cfg, frame: &[u8]) -> String {
     format!("ok {}{}) tv={} tb={}", head, resp, TV.with(|t| t.take()), tb)
 }
 
+/// kind P: a PREPARED response followed by a Rows response on the same stream; the second is decoded
+/// with the first one's result metadata as `cached_metadata` (the skip-metadata optimisation)
+fn decode_pair(cfg: &Cfg, stream: &[u8]) -> String {
+    use scylla_cql::frame::response::ResponseOpcode;
+    let mut features = ProtocolFeatures::default();
+    features.rate_limit_error = cfg.rate_limit;
+    features.scylla_metadata_id_supported = cfg.metadata_id;
+    let mut reader: &[u8] = stream;
+    let (p1, op1, body1): (_, _, Bytes) = match futures::executor::block_on(read_response_frame(&mut reader)) {
+        Ok(x) => x,
+        Err(_) => return "pair none".into(),
+    };
+    if p1.flags != 0 || op1 != ResponseOpcode::Result {
+        return "pair none".into();
+    }
+    let prepared = match ResponseV2::deserialize(&features, op1, body1, None) {
+        Ok(ResponseV2::Result(scylla_cql::frame::response::result::Result::Prepared(p))) => p,
+        _ => return "pair none".into(),
+    };
+    let cached = std::sync::Arc::new(prepared.result_metadata);
+    let (p2, op2, body2): (_, _, Bytes) = match futures::executor::block_on(read_response_frame(&mut reader)) {
+        Ok(x) => x,
+        Err(e) => {
+            let c = match e {
+                FrameHeaderParseError::HeaderIoError(_) => "HeaderIoError",
+                FrameHeaderParseError::FrameFromClient => "FrameFromClient",
+                FrameHeaderParseError::VersionNotSupported(_) => "VersionNotSupported",
+                FrameHeaderParseError::UnknownResponseOpcode(_) => "UnknownResponseOpcode",
+                FrameHeaderParseError::ConnectionClosed(_, _) => "ConnectionClosed",
+                _ => "OtherHeaderError",
+            };
+            return format!("err hdr {}", c);
+        }
+    };
+    if p2.flags != 0 || op2 != ResponseOpcode::Result {
+        return "pair none".into();
+    }
+    if body2.len() >= 4 && body2[..4] != [0, 0, 0, 2] {
+        return "pair none".into();
+    }
+    TV.with(|t| t.set("-".to_string()));
+    let r = match ResponseV2::deserialize(&features, op2, body2, Some(&cached)) {
+        Ok(r) => r,
+        Err(e) => return format!("err body {}", classify(&format!("{:?}", e))),
+    };
+    let r = match r.deserialize_metadata() {
+        Ok(r) => r,
+        Err(e) => return format!("err body {}", classify(&format!("{:?}", e))),
+    };
+    match &r {
+        RM2::Result(res) => match r_result(res) {
+            Ok(s) => format!("ok {} tv={}", s, TV.with(|t| t.take())),
+            Err(c) => format!("err body {}", c),
+        },
+        _ => "pair none".into(),
+    }
+}
+
 /// what the negotiated codec makes of the body (the model treats the codec as an oracle)
 fn codec_oracle(cfg: &Cfg, frame: &[u8]) -> Option<String> {
     let comp = cfg.compression?;
@@ -561,7 +619,8 @@ fn run_case(case: &str) -> String {
     let oracle = codec_oracle(&cfg, &frame);
     MAXREQ.with(|m| m.set(0));
     TOTAL.with(|t| t.set(0));
-    let status = match catch(std::panic::AssertUnwindSafe(|| decode(&cfg, &frame))) {
+    let pair = f[0] == "P";
+    let status = match catch(std::panic::AssertUnwindSafe(|| if pair { decode_pair(&cfg, &frame) } else { decode(&cfg, &frame) })) {
         Ok(s) => s,
         Err(m) => {
             format!("panic {}", m.split_whitespace().collect::<Vec<_>>().join("_").chars().take(80).collect::<String>())
@@ -685,7 +744,7 @@ fn run_in_children(cases: &[String], infile: &str, per_input_timeout_s: u64, wor
                         }
                         Err(std::sync::mpsc::RecvTimeoutError::Timeout) => {
                             let _ = ch.kill();
-                            res.push((next, run_alone(&exe, &infile, next, 6 * per_input_timeout_s)));
+                            res.push((next, run_alone(&exe, &infile, next, 3 * per_input_timeout_s)));
                             next += 1;
                             break;
                         }
@@ -693,7 +752,7 @@ fn run_in_children(cases: &[String], infile: &str, per_input_timeout_s: u64, wor
                             // the child died while working on case `next`
                             if next < hi {
                                 let _ = ch.wait();
-                                res.push((next, run_alone(&exe, &infile, next, 6 * per_input_timeout_s)));
+                                res.push((next, run_alone(&exe, &infile, next, 3 * per_input_timeout_s)));
                                 next += 1;
                             }
                             break;
@@ -996,14 +1055,38 @@ fn gen_cases(a: &Args) -> Vec<String> {
         .args(["gen", &a.seed.to_string(), &nbase.to_string()])
         .output()
         .expect("run ocaml/c08/driver gen");
-    let base: Vec<(String, String, Vec<u8>)> = String::from_utf8_lossy(&out.stdout)
+    let gen_lines: Vec<Vec<String>> = String::from_utf8_lossy(&out.stdout)
         .lines()
-        .filter_map(|l| {
-            let f: Vec<&str> = l.split_whitespace().collect();
-            if f.len() == 3 { Some((f[0].to_string(), f[1].to_string(), unhex(f[2]))) } else { None }
-        })
+        .map(|l| l.split_whitespace().map(|x| x.to_string()).collect())
+        .collect();
+    let base: Vec<(String, String, Vec<u8>)> = gen_lines
+        .iter()
+        .filter(|f| f.len() == 3)
+        .map(|f| (f[0].clone(), f[1].clone(), unhex(&f[2])))
         .collect();
     assert!(!base.is_empty(), "driver gen produced nothing");
+    // pairs PREPARED + Rows-without-metadata (cached result metadata), their cuts and mutations
+    for f in gen_lines.iter().filter(|f| f.len() == 4 && f[0] == "P") {
+        let (ft, v, st) = (&f[1], &f[2], unhex(&f[3]));
+        cases.push(format!("P {} {}n {}", ft, v, hex_bytes(&st)));
+        for _ in 0..8 {
+            let k = r.below(st.len() as u64) as usize;
+            cases.push(format!("P {} {}n {}", ft, v, hex_bytes(&st[..k])));
+        }
+        for _ in 0..24 {
+            // mutate the second frame mostly (a damaged first frame only yields "pair none")
+            let l1 = 9 + u32::from_be_bytes([st[5], st[6], st[7], st[8]]) as usize;
+            let mut m = st.clone();
+            if l1 < st.len() && r.chance(3, 4) {
+                let tail = mutate(&mut r, &st[l1..]);
+                m.truncate(l1);
+                m.extend_from_slice(&tail);
+            } else {
+                m = mutate(&mut r, &st);
+            }
+            cases.push(format!("P {} {}n {}", ft, v, hex_bytes(&m)));
+        }
+    }
     let per = ((a.n as usize).saturating_sub(cases.len()) / base.len()).max(8);
     for (ft, v, f) in &base {
         let mode = format!("{}n", v);
